@@ -105,7 +105,7 @@ theorem ckdPub_hardened (x : XKey) (i : Nat) (hi : i ≥ HARDENED) : ckdPub E x 
 
 theorem deriveB_too_deep (x : XKey) (p : List Nat) (f : Option Bytes) (h : x.depth + p.length > MAX_DEPTH) :
     deriveB E x p f = .error .depth := by
-  unfold deriveB; simp [h]
+  unfold deriveB deriveWalk forceStage; simp [h]
 
 theorem deriveB_public_hardened (x : XKey) (p : List Nat) (hpub : x.isPrivate = false)
     (hd : x.depth + p.length ≤ MAX_DEPTH) (hh : ∃ i ∈ p, i ≥ HARDENED) :
@@ -143,7 +143,7 @@ theorem deriveB_forced (x : XKey) (p : List Nat) (f : Bytes) (hf : f ≠ [])
     (hd : x.depth + p.length ≤ MAX_DEPTH) :
     deriveB E x p (some f) =
       (forceVersion E x.version f).bind fun v => deriveB E { x with version := v } p none := by
-  unfold deriveB
+  unfold deriveB deriveWalk forceStage
   have hd' : ¬ x.depth + p.length > MAX_DEPTH := by omega
   simp only [hd', if_false]
   cases f with
@@ -152,5 +152,49 @@ theorem deriveB_forced (x : XKey) (p : List Nat) (f : Bytes) (hf : f ≠ [])
     cases forceVersion E x.version (b :: f') with
     | error e => rfl
     | ok v => simp [Except.map, Except.bind, XKey.isPrivate, XKey.prvInt]
+
+/-! ### consequences of T1 (whoever proves it) -/
+
+theorem depth_of_ok {x y : XKey} {p : List Nat} {f : Option Bytes} (h : deriveB E x p f = .ok y) :
+    x.depth + p.length ≤ MAX_DEPTH := by
+  by_contra hc
+  rw [deriveB_too_deep x p f (by omega)] at h
+  cases h
+
+theorem fields_of_eq {x y : XKey} {p : List Nat} (heq : deriveB E x p none = deriveFold E x p)
+    (h : deriveB E x p none = .ok y) :
+    y.depth = x.depth + p.length ∧ y.version = x.version ∧ y.isPrivate = x.isPrivate ∧
+    ∀ i, p.getLast? = some i → y.index = i := by
+  have hd := depth_of_ok h
+  rw [heq, deriveFold_eq' E x p hd] at h
+  exact deriveFold'_fields E x y p h
+
+theorem compose_of_eq {x y : XKey} {p q : List Nat} (h1 : deriveB E x p none = deriveFold E x p)
+    (h2 : deriveB E y q none = deriveFold E y q) (h3 : deriveB E x (p ++ q) none = deriveFold E x (p ++ q))
+    (h : deriveB E x p none = .ok y) : deriveB E y q none = deriveB E x (p ++ q) none := by
+  rw [h2, h3, deriveFold_append, ← h1, h]
+  rfl
+
+/-- T1 for private keys, with the fold that has the depth bound -/
+theorem deriveB_private_fold (B : Bounds E) (x : XKey) (p : List Nat) (hprv : x.isPrivate = true)
+    (hd : x.depth + p.length ≤ MAX_DEPTH) : deriveB E x p none = deriveFold E x p := by
+  rw [deriveFold_eq' E x p hd]; exact deriveB_private B x p hprv hd
+
+/-- fields, private keys: no group law -/
+theorem deriveB_fields_private (B : Bounds E) (x y : XKey) (p : List Nat) (hprv : x.isPrivate = true)
+    (h : deriveB E x p none = .ok y) :
+    y.depth = x.depth + p.length ∧ y.version = x.version ∧ y.isPrivate = x.isPrivate ∧
+    ∀ i, p.getLast? = some i → y.index = i :=
+  fields_of_eq (deriveB_private_fold B x p hprv (depth_of_ok h)) h
+
+/-- T2 in btclib's shape, private keys: no group law -/
+theorem deriveB_compose_private (B : Bounds E) (x y : XKey) (p q : List Nat) (hprv : x.isPrivate = true)
+    (hd : x.depth + (p ++ q).length ≤ MAX_DEPTH) (h : deriveB E x p none = .ok y) :
+    deriveB E y q none = deriveB E x (p ++ q) none := by
+  have hf := deriveB_fields_private B x y p hprv h
+  have hdp : x.depth + p.length ≤ MAX_DEPTH := depth_of_ok h
+  have hdq : y.depth + q.length ≤ MAX_DEPTH := by simp at hd; omega
+  exact compose_of_eq (deriveB_private_fold B x p hprv hdp)
+    (deriveB_private_fold B y q (by rw [hf.2.2.1]; exact hprv) hdq) (deriveB_private_fold B x (p ++ q) hprv hd) h
 
 end Btc.Bip32
